@@ -2371,9 +2371,10 @@ lyd_dup(const struct lyd_node *node, const struct ly_ctx *trg_ctx, struct lyd_no
             rc = lyd_dup_r(orig, trg_ctx, local_parent, insert_order, &first_sibling, options, &dup);
             LY_CHECK_GOTO(rc, error);
 
-            if (first_llist && (dup->next || (dup->prev->next && (dup->prev->schema == dup->schema)))) {
-                /* orig was not the last node or there are some previous instances (which may have their sorting tree
-                 * that appended nodes would be missing in), we must find the order */
+            if (first_llist && (dup->next ||
+                    ((first_llist == orig) && dup->prev->next && (dup->prev->schema == dup->schema)))) {
+                /* orig was not the last node or the first duplicate follows some previous instances (which may have
+                 * their sorting tree that appended nodes would be missing in), we must find the order */
                 first_llist = NULL;
             }
         }
